@@ -13,6 +13,7 @@ package certmagic
 // and handed to the model as an input of the event.
 
 import (
+	"bytes"
 	"context"
 	"crypto/ecdsa"
 	"crypto/elliptic"
@@ -21,8 +22,10 @@ import (
 	"encoding/json"
 	"errors"
 	"fmt"
+	"io"
 	mrand "math/rand"
 	"net"
+	"net/http"
 	"sort"
 	"strconv"
 	"strings"
@@ -52,13 +55,43 @@ type c12PoolCert struct {
 }
 
 type c12Pool struct {
+	ca      *vCA
 	certs   []c12PoolCert
 	hashTok map[string]string
 	names   []string // universe of names for lookups
 }
 
+const c12OCSPURL = "http://ocsp.c12.example/"
+
+// an OCSP responder behind http.DefaultClient (the client the library uses): Good for whatever
+// serial is asked about, fresh for a week — so that a maintenance pass finds every (stale)
+// staple of the pool changed and writes it back
+type c12Responder struct{ ca *vCA }
+
+func (rt c12Responder) RoundTrip(req *http.Request) (*http.Response, error) {
+	var b []byte
+	if req.Body != nil {
+		b, _ = io.ReadAll(req.Body)
+		req.Body.Close()
+	}
+	oreq, err := ocsp.ParseRequest(b)
+	if err != nil {
+		return nil, err
+	}
+	now := time.Now()
+	der, err := ocsp.CreateResponse(rt.ca.Cert, rt.ca.Cert, ocsp.Response{Status: ocsp.Good, SerialNumber: oreq.SerialNumber,
+		ThisUpdate: now.Add(-time.Hour), NextUpdate: now.Add(7 * 24 * time.Hour)}, rt.ca.Key)
+	if err != nil {
+		return nil, err
+	}
+	return &http.Response{StatusCode: 200, Status: "200 OK", Proto: "HTTP/1.1", ProtoMajor: 1, ProtoMinor: 1,
+		Header: http.Header{"Content-Type": []string{"application/ocsp-response"}}, Body: io.NopCloser(bytes.NewReader(der)),
+		ContentLength: int64(len(der)), Request: req}, nil
+}
+
 func c12MakePool(t testing.TB) *c12Pool {
 	ca := vNewCA("c12")
+	ca.OCSP = c12OCSPURL
 	now := time.Now()
 	type spec struct {
 		cn      string
@@ -75,7 +108,7 @@ func c12MakePool(t testing.TB) *c12Pool {
 		{"", []string{"c.example"}, false, "", []string{"urn:Mixed-Case-Svc"}}, // a name the library keeps with its case
 		{"", []string{"b.example", "u5.example", "b.example", "*.b.example"}, true, "i2", nil}, // duplicate name
 	}
-	p := &c12Pool{hashTok: map[string]string{}}
+	p := &c12Pool{hashTok: map[string]string{}, ca: ca}
 	seen := map[string]bool{}
 	for i, s := range specs {
 		priv, err := ecdsa.GenerateKey(elliptic.P256(), rand.Reader)
@@ -396,6 +429,18 @@ func (r *c12Run) exec(op c12Op, k int) {
 			panic(err)
 		}
 		r.emit(fmt.Sprintf("ari:%s:%d", r.p.tok(c.hash), stamp))
+	case "ocsp":
+		// a maintenance pass over the staples: every managed certificate's (stale) staple is
+		// refreshed on a COPY taken at the start of the pass; the write-back touches the staple of
+		// whatever is in the cache THEN, nothing else (for the model: nothing changes — the event
+		// is the removal of a hash that is not cached)
+		if op.mid != nil {
+			mid := *op.mid
+			r.hookOn, r.hook = "ocsp", func() { r.exec(mid, k) }
+		}
+		r.cache.updateOCSPStaples(ctx)
+		r.hook = nil
+		r.emit("rm:" + r.p.tok("0000000000000000000000000000000000000000000000000000000000000000"))
 	case "hs":
 		// a real handshake for a name only pool certificate i lists; its maintenance refreshes
 		// the (stale) staple on a COPY and writes the copy back
@@ -662,6 +707,9 @@ func TestVerifC12(t *testing.T) {
 	defer o.Close()
 	rng := vRand()
 	p := c12MakePool(t)
+	oldT := http.DefaultClient.Transport
+	http.DefaultClient.Transport = c12Responder{p.ca}
+	defer func() { http.DefaultClient.Transport = oldT }()
 	for i, c := range p.certs {
 		o.Note(fmt.Sprintf("pool_h%d", i), fmt.Sprintf("%v managed=%v issuer=%q", c.cert.Names, c.cert.managed, c.cert.issuerKey))
 	}
@@ -679,6 +727,9 @@ func TestVerifC12(t *testing.T) {
 		c12RunTrace(o, p, c, []c12Op{{kind: "add", i: 0}, {kind: "hs", i: 0, mid: &rep03}}, true)
 		c12RunTrace(o, p, c, []c12Op{{kind: "add", i: 0}, {kind: "add", i: 1}, {kind: "hs", i: 0, mid: &rmm}}, true)
 		c12RunTrace(o, p, c, []c12Op{{kind: "add", i: 0}, {kind: "ari", i: 0, mid: &rm0}, {kind: "ari", i: 0}}, true)
+		readd := c12Op{kind: "add", i: 0, tags: []string{"t7"}}
+		c12RunTrace(o, p, c, []c12Op{{kind: "add", i: 0, tags: []string{"t1"}}, {kind: "add", i: 1}, {kind: "ocsp", mid: &readd}, {kind: "ocsp"}}, true)
+		c12RunTrace(o, p, c, []c12Op{{kind: "add", i: 0}, {kind: "add", i: 3}, {kind: "ocsp", mid: &rm0}, {kind: "ocsp", mid: &rep03}}, true)
 		c12RunTrace(o, p, c, []c12Op{{kind: "add", i: 3}, {kind: "add", i: 4}, {kind: "add", i: 5}, {kind: "rm", hs: []int{3}},
 			{kind: "rep", i: 5, j: 3}, {kind: "rmm", subs: [][2]string{{"c.example", "i1"}}}}, true)
 		o.Stat("scenarios", 6)
